@@ -45,17 +45,26 @@ CasesOf(s) ==
 FieldBudget == Budget
 Sorted(S) == LET RECURSIVE F(_) F(T) == IF T = {} THEN <<>> ELSE LET x == CHOOSE y \in T : \A z \in T : y <= z IN <<x>> \o F(T \ {x}) IN F(S)
 PickEven(q) == IF Len(q) <= FieldBudget THEN {q[i] : i \in 1..Len(q)} ELSE {q[1 + ((k - 1) * Len(q)) \div FieldBudget] : k \in 1..FieldBudget}
-Heads == <<128, 192, 255>>
-Tails == << <<0>>, <<1>>, <<9>>, <<127>>, <<128, 0>>, <<128, 255>>, <<191, 255>>, <<193>>, <<196>>, <<255>> >>
+Heads == <<128, 255>>
+Tails == << <<0>>, <<1>>, <<9>>, <<127>>, <<128, 0>>, <<191, 255>>, <<255>> >>
+LenTails == << <<0>>, <<1>>, <<9>>, <<127>>, <<128, 0>>, <<128, 255>>, <<191, 255>>, <<193>>, <<196>>, <<255>> >>
 Overwrite(b, i, w) == Tup([j \in 1..Len(b) |-> IF j >= i /\ j < i + Len(w) THEN w[j - i + 1] ELSE b[j]])
 FieldCases(s) ==
    IF "tree" \notin DOMAIN s THEN <<>>
    ELSE LET b == s.bytes n == Len(b)
-            octs == PickEven(Sorted({(p \div 8) + 1 : p \in {q \in PerFieldStarts(s.tree) : q < 8 * n}}))
+            mk == PerMarks(PerEmpty, s.tree, 0)
+            octs == PickEven(Sorted({(p \div 8) + 1 : p \in {q \in mk.m : q < 8 * n}}))
+            lens == {(p \div 8) + 1 : p \in {q \in mk.ln : q < 8 * n}}
         IN SetToSeq({Case(s, "field" \o ToString(Heads[h]) \o "x" \o ToString(t), i, Overwrite(b, i, <<Heads[h]>> \o Tails[t]))
                         : i \in octs, h \in 1..Len(Heads), t \in 1..Len(Tails)}
                     \cup {Case(s, "fieldcut", i, SubSeq(b, 1, i)) : i \in octs}
-                    \cup {Case(s, "fieldlen" \o ToString(t), i, Overwrite(b, i, Tails[t])) : i \in octs, t \in 1..Len(Tails)})
+                    \* every octet-aligned length determinant (open-type lengths of the IEs, string and list lengths), no budget on the
+                    \* positions: driven to the adversarial lengths, to every smaller value (the content ends early, at most Budget values
+                    \* evenly spaced) and to its own value + 1
+                    \cup {Case(s, "len" \o ToString(t), i, Overwrite(b, i, LenTails[t])) : i \in lens, t \in 1..Len(LenTails)}
+                    \cup UNION {{Case(s, "lenshrink" \o ToString(k - 1), i, Set1(b, i, k - 1)) : k \in Positions(IF b[i] < 128 THEN b[i] ELSE 0)} : i \in lens}
+                    \cup {Case(s, "lenplus", i, Set1(b, i, IF b[i] < 255 THEN b[i] + 1 ELSE 255)) : i \in lens}
+                    \cup {Case(s, "lencut", i, SubSeq(b, 1, i)) : i \in lens})
 Init == l = 1 /\ out = 0
 Next == /\ l <= Len(Seeds)
         /\ LET cs == CasesOf(Seeds[l]) \o FieldCases(Seeds[l]) IN
